@@ -223,6 +223,9 @@ class Executor(MatchMixin, ExprMixin):
                 if fty == "initdict":
                     o.fields[f] = self.init_dict(cls, f)
                     continue
+                if fty == "initset":
+                    o.fields[f] = self.init_set(cls, f)
+                    continue
                 alts = self.mk(fty, f"{prefix}.{f}", st)
                 if len(alts) != 1:
                     raise Unsupported(f"optional field {cls}.{f} in a class shape (declare it per contract)")
@@ -273,6 +276,38 @@ class Executor(MatchMixin, ExprMixin):
                     break
         return PyConst(f"{cls}.{field}:not-a-constant-dict-literal")        # only the code that reads it becomes unsupported
 
+    def init_set(self, cls: str, field: str):
+        """the constant set of Token members assigned to self.<field> in the real <cls>.__init__ (e.g. Tokenizer._not_body)"""
+        d = None
+        fn = self.find_function(f"{cls}.__init__")
+        if fn is None and getattr(self, "repo", None):
+            pkg = os.path.join(self.repo, os.path.dirname(self.filename))
+            for f in sorted(os.listdir(pkg)):
+                if f.endswith(".py") and f != "parser.py":
+                    try:
+                        mod = ast.parse(open(os.path.join(pkg, f), encoding="utf-8").read())
+                    except (OSError, SyntaxError):
+                        continue
+                    for c in mod.body:
+                        if isinstance(c, ast.ClassDef) and c.name == cls:
+                            fn = next((m for m in c.body if isinstance(m, ast.FunctionDef) and m.name == "__init__"), None)
+                    if fn is not None:
+                        break
+        for n in ast.walk(fn) if fn is not None else []:
+            tgt = n.target if isinstance(n, ast.AnnAssign) else (n.targets[0] if isinstance(n, ast.Assign) and len(n.targets) == 1 else None)
+            if (isinstance(tgt, ast.Attribute) and tgt.attr == field and isinstance(tgt.value, ast.Name) and tgt.value.id == "self"
+                    and isinstance(n.value, ast.Set)):
+                items = []
+                for e in n.value.elts:
+                    if isinstance(e, ast.Attribute) and isinstance(e.value, ast.Name) and e.value.id == "Token" and e.attr in self.token_enum:
+                        items.append(z3.IntVal(self.token_enum[e.attr]))
+                    else:
+                        items = None
+                        break
+                if items is not None:
+                    d = PyStrSet(items)
+        return d if d is not None else PyConst(f"{cls}.{field}:not-a-constant-set-of-Token-members")
+
     def fresh_like(self, v, prefix):
         if v is NONE:
             return NONE
@@ -293,7 +328,7 @@ class Executor(MatchMixin, ExprMixin):
         if isinstance(v, PyCallable) and v.kind == "linesrc":
             np_ = fresh(prefix + "_pos", I)
             return PyCallable("linesrc", v.name, bound=PyGen(v.bound.items, np_))
-        if isinstance(v, (PyObj, PyConst, PyCallable, PyStrDict)):
+        if isinstance(v, (PyObj, PyConst, PyCallable, PyStrDict, PyStrSet)):
             return v
         raise Unsupported(f"havoc of {type(v).__name__}")
 
@@ -311,7 +346,34 @@ class Executor(MatchMixin, ExprMixin):
             paths = nxt
         return paths
 
+    OPAQUE_PURE = {"enumerate", "len", "range", "sorted", "list", "tuple", "str", "int"}
+
+    def is_opaque_stmt(self, s) -> bool:
+        """the statement only computes / updates locals the contract declares opaque (no effect on modelled state)"""
+        opq = set(self.cur.opaque) if self.cur and self.cur.opaque else set()
+        if not opq or not isinstance(s, (ast.Assign, ast.AugAssign, ast.AnnAssign, ast.Expr, ast.For)):
+            return False
+        names, attrs, calls = self.assigned_in([s])
+        if isinstance(s, ast.Expr) and not (isinstance(s.value, ast.Call) and isinstance(s.value.func, ast.Attribute)
+                                            and isinstance(s.value.func.value, ast.Name) and s.value.func.value.id in opq):
+            return False
+        if attrs or not names <= opq or (not names and not isinstance(s, ast.Expr)):
+            return False
+        for c in calls:
+            f = c.func
+            if isinstance(f, ast.Attribute) and isinstance(f.value, ast.Name) and (f.value.id in opq or f.value.id == "re"):
+                continue
+            if isinstance(f, ast.Name) and f.id in self.OPAQUE_PURE:
+                continue
+            return False
+        return not any(isinstance(n, (ast.Yield, ast.YieldFrom, ast.Await, ast.Return, ast.Break, ast.Continue, ast.Raise)) for n in ast.walk(s))
+
     def exec_stmt(self, s, st):
+        if self.is_opaque_stmt(s):
+            names, _a, _c = self.assigned_in([s])
+            for n in names:
+                st.env[n] = PyConst("opaque")
+            return [(st, Flow("normal"))]
         m = getattr(self, "s_" + type(s).__name__, None)
         if m is None:
             raise Unsupported(f"statement {type(s).__name__} at line {s.lineno}")
@@ -738,6 +800,17 @@ class Executor(MatchMixin, ExprMixin):
     def s_For(self, s, st):
         if s.orelse:
             raise Unsupported("for-else")
+        # for [idx,] x in [enumerate(]generator[)]
+        inner = s.iter.args[0] if (isinstance(s.iter, ast.Call) and isinstance(s.iter.func, ast.Name) and s.iter.func.id == "enumerate"
+                                   and len(s.iter.args) == 1 and not s.iter.keywords) else None
+        probe = inner if inner is not None else s.iter
+        if isinstance(probe, (ast.Name, ast.Attribute)):
+            try:
+                gv = self.eval1(probe, st)
+            except Unsupported:
+                gv = None
+            if isinstance(gv, PyGen):
+                return self.gen_for(s, st, gv, inner is not None)
         out = []
         for p, it in self.eval(s.iter, st):
             if isinstance(it, Exc):
@@ -760,6 +833,36 @@ class Executor(MatchMixin, ExprMixin):
                 out.extend((q, Flow("normal") if fl.kind == "break" else fl) for q, fl in paths)
                 continue
             out.extend(self.sym_for(s, p, it))
+        return out
+
+    def gen_for(self, s, st, g, with_index: bool):
+        """for [idx,] x in [enumerate(]<generator>[)]: every iteration pulls the next item; the loop ends when the generator is exhausted.
+        Ghost `_i` = number of items pulled by this loop so far."""
+        k, lc = self.loop_contract(s)
+        pos0 = g.pos
+        self.coerce_loop_types(st, lc)
+        self.check_invariants(st, lc, "invariant-entry", s.lineno, {"_i": z3.IntVal(0)})
+        self.havoc_for_loop(st, s.body, lc.get("havoc", ()), lc.get("types"))
+        i = fresh("i", I)
+        st.assume(z3.And(i >= 0, pos0 + i <= z3.Length(g.items)))
+        g.pos = pos0 + i
+        self.assume_invariants(st, lc, {"_i": i})
+        out = []
+        for p2, more in self.fork(st, pos0 + i < z3.Length(g.items)):
+            if not more:
+                out.append((p2, Flow("normal")))            # StopIteration ends the loop
+                continue
+            g2 = self.eval1(s.iter.args[0] if with_index else s.iter, p2)
+            item = g2.items[pos0 + i]
+            g2.pos = pos0 + i + 1
+            self.assign_target(s.target, PyTuple([i, item]) if with_index else item, p2, s)
+            for p3, fl in self.exec_block(s.body, p2):
+                if fl.kind in ("normal", "continue"):
+                    self.check_invariants(p3, lc, "invariant-preserved", s.lineno, {"_i": i + 1})
+                elif fl.kind == "break":
+                    out.append((p3, Flow("normal")))
+                else:
+                    out.append((p3, fl))
         return out
 
     def sym_for(self, s, st, it):
@@ -859,6 +962,9 @@ class Executor(MatchMixin, ExprMixin):
                 def ke(p, vals):
                     return self.epstack_method(p, self.eval1(f.value, p), f.attr, vals, e)
                 return self.bind(self.eval_list(list(e.args), st), ke)
+        if isinstance(f, ast.Attribute) and f.attr == "join" and e.args and any(
+                isinstance(n, ast.Name) and isinstance(st.env.get(n.id), PyConst) and st.env[n.id].name == "opaque" for n in ast.walk(e.args[0])):
+            return [(st, fresh("joined", z3.StringSort()))]      # text assembled from values the contract does not model
         if isinstance(f, ast.Attribute) and f.attr == "join" and e.args and isinstance(e.args[0], (ast.GeneratorExp, ast.ListComp)):
             return [(st, fresh("joined", z3.StringSort()))]      # only ever printed / used as message text
         if any(isinstance(a, ast.Starred) for a in e.args):
@@ -921,6 +1027,8 @@ class Executor(MatchMixin, ExprMixin):
                 return [(st, self.make_exception(st, fn.name, args))]
             if fn.name == "TokenInfo":
                 return [(st, self.make_token(st, args, kwargs))]
+            if fn.name == "textwrap.dedent" and len(args) == 1:
+                return [(st, dedent(lift(args[0])))]        # external: uninterpreted str -> str
             if fn.name in MODE_KINDS:
                 return [(st, self.make_mode(fn.name, args))]
             if fn.name == "EndProg":
